@@ -1889,12 +1889,12 @@ Proof.
     cbn [length rev Nat.sub]. now rewrite <- app_assoc.
 Qed.
 
-Lemma split_go_join c : forall names cur fuel,
-  names <> [] -> (forall x, In x names -> ~ In c x) -> length (join [c] names) < fuel ->
-  split_go fuel [c] cur (join [c] names) = (rev cur ++ hd [] names) :: tl names.
+Lemma split_go_join c : forall nms cur fuel,
+  nms <> [] -> (forall x, In x nms -> ~ In c x) -> length (join [c] nms) < fuel ->
+  split_go fuel [c] cur (join [c] nms) = (rev cur ++ hd [] nms) :: tl nms.
 Proof.
-  induction names as [|x names IH]; intros cur fuel Hne Hc Hf; [congruence|].
-  destruct names as [|y names].
+  induction nms as [|x nms IH]; intros cur fuel Hne Hc Hf; [congruence|].
+  destruct nms as [|y nms].
   - rewrite join_single in *. rewrite <- (app_nil_r x) at 1.
     rewrite split_go_word; [|apply Hc; now left|lia].
     destruct (fuel - length x) eqn:Ef; [lia|]. cbn. now rewrite rev_app_distr, rev_involutive.
@@ -1902,15 +1902,15 @@ Proof.
     rewrite split_go_word; [|apply Hc; now left|lia].
     destruct (fuel - length x) as [|f] eqn:Ef; [lia|].
     cbn [split_go]. rewrite startswith_single, N.eqb_refl. cbn [skipn length].
-    rewrite IH; [|discriminate|intros z Hz; apply Hc; now right|lia].
+    rewrite IH; [|discriminate|intros z Hz; apply Hc; now right|unfold str in *; cbn [length] in *; lia].
     cbn [rev app hd tl]. now rewrite rev_app_distr, rev_involutive.
 Qed.
 
-Lemma split_join c names :
-  names <> [] -> (forall x, In x names -> ~ In c x) -> split (join [c] names) [c] = names.
+Lemma split_join c nms :
+  nms <> [] -> (forall x, In x nms -> ~ In c x) -> split (join [c] nms) [c] = nms.
 Proof.
   intros Hne Hc. unfold split. rewrite split_go_join; auto.
-  destruct names; [congruence|reflexivity].
+  destruct nms; [congruence|reflexivity].
 Qed.
 
 Lemma lstrip_id c s : (forall x r, s = x :: r -> x <> c) -> lstrip s [c] = s.
@@ -1922,24 +1922,26 @@ Qed.
 Lemma rstrip_id c s : (forall x r, rev s = x :: r -> x <> c) -> rstrip s [c] = s.
 Proof. intros H. unfold rstrip. rewrite lstrip_id; [apply rev_involutive|exact H]. Qed.
 
-Lemma join_head c x names ch r :
-  x = ch :: r -> exists r', join [c] (x :: names) = ch :: r'.
-Proof. intros ->. destruct names; [rewrite join_single|rewrite join_cons]; cbn; eauto. Qed.
+Lemma join_head c x nms ch r :
+  x = ch :: r -> exists r', join [c] (x :: nms) = ch :: r'.
+Proof. intros ->. destruct nms; [rewrite join_single|rewrite join_cons]; cbn; eauto. Qed.
 
-Lemma join_last c : forall names y ch r,
-  rev y = ch :: r -> exists r', rev (join [c] (names ++ [y])) = ch :: r'.
+Lemma join_cons_ne (sp x : str) l : l <> [] -> join sp (x :: l) = x ++ sp ++ join sp l.
+Proof. destruct l; [congruence|reflexivity]. Qed.
+
+Lemma join_last c : forall nms y ch r,
+  rev y = ch :: r -> exists r', rev (join [c] (nms ++ [y])) = ch :: r'.
 Proof.
-  induction names as [|x names IH]; intros y ch r Hy.
+  induction nms as [|x nms IH]; intros y ch r Hy.
   - cbn [app]. rewrite join_single. eauto.
-  - cbn [app]. destruct (names ++ [y]) as [|z l] eqn:E; [destruct names; discriminate|].
-    rewrite join_cons, <- E. rewrite !rev_app_distr.
-    destruct (IH y ch r Hy) as [r' ->]. cbn. eauto.
+  - cbn [app]. rewrite join_cons_ne by (destruct nms; discriminate).
+    rewrite !rev_app_distr. destruct (IH y ch r Hy) as [r' ->]. cbn. eauto.
 Qed.
 
-(* a path string is read back as its list of names *)
-Lemma branch_of_join c names :
-  names <> [] -> (forall x, In x names -> ~ In c x) -> hd [] names <> [] -> last names [] <> [] ->
-  branch_of (join [c] names) [c] = names.
+(* a path string is read back as its list of nms *)
+Lemma branch_of_join c nms :
+  nms <> [] -> (forall x, In x nms -> ~ In c x) -> hd [] nms <> [] -> last nms [] <> [] ->
+  branch_of (join [c] nms) [c] = nms.
 Proof.
   intros Hne Hc Hh Hl. unfold branch_of.
   rewrite lstrip_id.
@@ -1950,22 +1952,42 @@ Proof.
     + destruct (join_last c l y ch r0 Ey) as [r' E']. rewrite E' in E. inversion E; subst.
       intros ->. apply (Hc y); [apply in_or_app; right; now left|].
       apply in_rev. rewrite Ey. now left.
-  - intros x r E. destruct names as [|n0 names]; [congruence|]. cbn [hd] in Hh.
+  - intros x r E. destruct nms as [|n0 nms]; [congruence|]. cbn [hd] in Hh.
     destruct n0 as [|ch r0]; [congruence|].
-    destruct (join_head c (ch :: r0) names ch r0 eq_refl) as [r' E']. rewrite E' in E.
+    destruct (join_head c (ch :: r0) nms ch r0 eq_refl) as [r' E']. rewrite E' in E.
     inversion E; subst. intros ->. apply (Hc (c :: r0)); now left.
 Qed.
 
 (* C05_sep_independent *)
-Theorem add_path_sep_independent c1 c2 names t tsep dup na :
-  names <> [] -> hd [] names <> [] -> last names [] <> [] ->
-  (forall x, In x names -> ~ In c1 x /\ ~ In c2 x) ->
-  add_path_to_tree t tsep (join [c1] names) [c1] dup na
-  = add_path_to_tree t tsep (join [c2] names) [c2] dup na.
+Theorem add_path_sep_independent c1 c2 nms t tsep dup na :
+  nms <> [] -> hd [] nms <> [] -> last nms [] <> [] ->
+  (forall x, In x nms -> ~ In c1 x /\ ~ In c2 x) ->
+  add_path_to_tree t tsep (join [c1] nms) [c1] dup na
+  = add_path_to_tree t tsep (join [c2] nms) [c2] dup na.
 Proof.
   intros Hne Hh Hl Hc. unfold add_path_to_tree.
   rewrite !branch_of_join; auto; try (intros x Hx; now apply Hc).
-  destruct names as [|n0 names]; [congruence|]. cbn [hd] in Hh. destruct n0 as [|ch r0]; [congruence|].
-  destruct (join_head c1 (ch :: r0) names ch r0 eq_refl) as [r1 ->].
-  destruct (join_head c2 (ch :: r0) names ch r0 eq_refl) as [r2 ->]. reflexivity.
+  destruct nms as [|n0 nms]; [congruence|]. cbn [hd] in Hh. destruct n0 as [|ch r0]; [congruence|].
+  destruct (join_head c1 (ch :: r0) nms ch r0 eq_refl) as [r1 ->].
+  destruct (join_head c2 (ch :: r0) nms ch r0 eq_refl) as [r2 ->]. reflexivity.
+Qed.
+
+(* the specification's reading of a path string (Spec/PC05.v spec_parse) agrees with the code's
+   on rendered name lists *)
+Lemma drop_empty_id l : hd [] l <> [] -> drop_empty l = l.
+Proof. destruct l as [|[|ch x] l]; cbn; congruence. Qed.
+
+Lemma hd_rev_last (l : list str) : hd [] (rev l) = last l [].
+Proof.
+  destruct l as [|x l] using rev_ind; [reflexivity|]. now rewrite rev_app_distr, last_last.
+Qed.
+
+Theorem spec_parse_join c nms :
+  nms <> [] -> (forall x, In x nms -> ~ In c x) -> hd [] nms <> [] -> last nms [] <> [] ->
+  spec_parse (join [c] nms) [c] = nms /\ branch_of (join [c] nms) [c] = nms.
+Proof.
+  intros Hne Hc Hh Hl. split; [|now apply branch_of_join].
+  unfold spec_parse. rewrite split_join by assumption.
+  rewrite (drop_empty_id nms Hh), drop_empty_id; [apply rev_involutive|].
+  now rewrite hd_rev_last.
 Qed.
